@@ -41,7 +41,7 @@ var hopExtraAllowed = map[string]string{"Proxy-Connection": "non-standard, sent 
 
 func runC03(c *Ctx) {
 	p := c.Progs["mod"]
-	c.Rule("C03.Y", "compatibility with the party that is not changed with this code: blob layout of stored responses; the shim code is only injected under its flag", 3)
+	c.Rule("C03.Y", "compatibility with the party that is not changed with this code: blob layout of stored responses; the shim code is only injected under its flag", 2)
 	ruleBlobLayout(c, p, "C03.Y")
 	ruleHostProxyFlagRoles(c, p, "C03.Y", "inject")
 	c.Borrow(runC14, "C14.T", "C03.S", func(k string) bool { return strings.HasPrefix(k, "isFrameable:") })
